@@ -13,3 +13,9 @@ package transport
 //@   ensures [router-to-client-queue-bounded] is(result1, *localPeer) && is(result0, *localPeer) && chancap(result1.(*localPeer).wr) == (queueSize == 0 ? 64 : queueSize)
 //@   ensures [linked] result0.(*localPeer).rd == result1.(*localPeer).wr && result1.(*localPeer).rd == result0.(*localPeer).wr
 //@   ensures [client-to-router-unbuffered] chancap(result0.(*localPeer).wr) == 0
+//@   ensures [two-peers] result0.(*localPeer) != nil && result1.(*localPeer) != nil
+
+//@ func LinkedPeers
+//@   props C04
+//@   modifies nothing
+//@   ensures [two-peers] is(result0, *localPeer) && is(result1, *localPeer) && result0.(*localPeer) != nil && result1.(*localPeer) != nil
